@@ -69,19 +69,20 @@ def run [Mul α] (weights : List α) (f : Fit α) (ops : List (Op α)) : Fit α 
 
 /-! ### ConstrainedFitness -/
 
-/-- `ConstrainedFitness`: weighted values plus `constraint_violation` (`None` or a sequence of flags). -/
+/-- `ConstrainedFitness`: weighted values plus `constraint_violation` (`None` or a sequence of numbers /
+flags; Python sums them, `True` counting 1 and negative entries cancelling positive ones). -/
 structure CFit (α : Type) where
   wvalues : List α
-  cv : Option (List Bool)
+  cv : Option (List Int)
 deriving Repr, DecidableEq
 
 def CFit.base (f : CFit α) : Fit α := ⟨f.wvalues⟩
 
-/-- `_violates_constraint` (base.py:266-269). -/
+/-- `_violates_constraint` (base.py): `not valid and constraint_violation is not None and sum(...) > 0`. -/
 def violates (f : CFit α) : Bool :=
   !(valid f.base) && (match f.cv with
     | none => false
-    | some flags => decide (0 < flags.count true))
+    | some flags => decide (0 < flags.foldl (· + ·) 0))
 
 def cle (a b : CFit α) : Bool :=
   if violates a && violates b then true
@@ -118,5 +119,22 @@ def cdelValues : CFit α := ⟨[], none⟩
 /-- Clone of a constrained fitness: weighted values *and* the violation flags
 (the class's declared state; see finding F2). -/
 def cdeepcopy (f : CFit α) : CFit α := ⟨f.wvalues, f.cv⟩
+
+/-- Operations on one constrained fitness object over time: assigning values, setting the
+`constraint_violation` attribute, deleting the values (which also clears the attribute). -/
+inductive COp (α : Type) where
+  | set (values : List α)
+  | setCv (cv : Option (List Int))
+  | del
+
+def cstep [Mul α] (weights : List α) (f : CFit α) : COp α → CFit α
+  | .set v => match setValues weights v with
+      | some g => ⟨g.wvalues, f.cv⟩
+      | none => f
+  | .setCv cv => ⟨f.wvalues, cv⟩
+  | .del => cdelValues
+
+def crun [Mul α] (weights : List α) (f : CFit α) (ops : List (COp α)) : CFit α :=
+  ops.foldl (cstep weights) f
 
 end Fitness
